@@ -433,3 +433,214 @@ theorem visit_spec (fks : List FkDecl) (tables : List Nat) :
         · exact a3 x hx (by simp [hxt, hxs]) c hc
 
 end VibeProof.Dml
+
+namespace VibeProof.Dml
+open VibeProof
+
+/-! ### the repaired (visited-set) recursion: results only lose rows, `in_progress` only grows, and
+the recursion terminates on *every* reference graph -/
+
+def RowsIn (db : Db) (u : Seen) : Prop := ∀ i r, r ∈ db i → (i, r) ∈ u
+
+/-- what every call preserves -/
+def MonoSpec (fks : List FkDecl) (u : Seen) (rec : Nat → Seen → Db → Row → Except CErr (Db × Seen)) : Prop :=
+  ∀ t seen db v db' seen', RowsIn db u → rec t seen db v = .ok (db', seen') →
+    RowsIn db' u ∧ ∀ p ∈ seen, p ∈ seen'
+
+theorem rowsIn_set_filter {db : Db} {u : Seen} (h : RowsIn db u) (t : Nat) (p : Row → Bool) :
+    RowsIn (db.set t ((db t).filter p)) u := by
+  intro i r hr
+  simp only [Db.set] at hr
+  split at hr
+  · rename_i hi; subst hi; exact h _ r (List.mem_filter.mp hr).1
+  · exact h i r hr
+
+theorem runVictimsV_mono (fks : List FkDecl) (u : Seen) (rec : Nat → Seen → Db → Row → Except CErr (Db × Seen))
+    (hrec : MonoSpec fks u rec) (t : Nat) : ∀ (vs : List Row) (seen : Seen) (db db' : Db) (seen' : Seen),
+      RowsIn db u → runVictimsV (rec t) vs seen db = .ok (db', seen') → RowsIn db' u ∧ ∀ p ∈ seen, p ∈ seen' := by
+  intro vs
+  induction vs with
+  | nil =>
+    intro seen db db' seen' h hr
+    simp only [runVictimsV, Except.ok.injEq, Prod.mk.injEq] at hr
+    obtain ⟨rfl, rfl⟩ := hr
+    exact ⟨h, fun _ hp => hp⟩
+  | cons v vs ih =>
+    intro seen db db' seen' h hr
+    unfold runVictimsV at hr
+    split at hr
+    · simp at hr
+    · rename_i db1 seen1 h1
+      obtain ⟨a1, a2⟩ := hrec t seen db v db1 seen1 h h1
+      obtain ⟨b1, b2⟩ := ih seen1 db1 db' seen' a1 hr
+      exact ⟨b1, fun p hp => b2 p (a2 p hp)⟩
+
+theorem applyActV_mono (fks : List FkDecl) (hco : CascadeOnly fks) (u : Seen)
+    (rec : Nat → Seen → Db → Row → Except CErr (Db × Seen)) (hrec : MonoSpec fks u rec) (row : Row) (d : FkDecl)
+    (hd : d ∈ fks) (seen : Seen) (db db' : Db) (seen' : Seen) (h : RowsIn db u)
+    (hr : applyActV rec row d seen db = .ok (db', seen')) : RowsIn db' u ∧ ∀ p ∈ seen, p ∈ seen' := by
+  unfold applyActV at hr
+  simp only [] at hr
+  split at hr
+  · simp at hr
+  · unfold deleteVictimsV at hr
+    split at hr
+    · simp at hr
+    · rename_i db1 seen1 h1
+      obtain ⟨a1, a2⟩ := runVictimsV_mono fks u rec hrec d.child _ seen db db1 seen1 h h1
+      simp only [Except.ok.injEq, Prod.mk.injEq] at hr
+      obtain ⟨rfl, rfl⟩ := hr
+      exact ⟨rowsIn_set_filter a1 _ _, a2⟩
+  · rename_i hsn; exact absurd hsn (hco d hd)
+
+theorem runActsV_mono (fks : List FkDecl) (hco : CascadeOnly fks) (u : Seen)
+    (rec : Nat → Seen → Db → Row → Except CErr (Db × Seen)) (hrec : MonoSpec fks u rec) (row : Row) :
+    ∀ (ds : List FkDecl) (seen : Seen) (db db' : Db) (seen' : Seen), (∀ d ∈ ds, d ∈ fks) → RowsIn db u →
+      runActsV rec row ds seen db = .ok (db', seen') → RowsIn db' u ∧ ∀ p ∈ seen, p ∈ seen' := by
+  intro ds
+  induction ds with
+  | nil =>
+    intro seen db db' seen' _ h hr
+    simp only [runActsV, Except.ok.injEq, Prod.mk.injEq] at hr
+    obtain ⟨rfl, rfl⟩ := hr
+    exact ⟨h, fun _ hp => hp⟩
+  | cons d ds ih =>
+    intro seen db db' seen' hmem h hr
+    unfold runActsV at hr
+    split at hr
+    · simp at hr
+    · rename_i db1 seen1 h1
+      obtain ⟨a1, a2⟩ := applyActV_mono fks hco u rec hrec row d (hmem d List.mem_cons_self) seen db db1 seen1 h h1
+      obtain ⟨b1, b2⟩ := ih seen1 db1 db' seen' (fun x hx => hmem x (List.mem_cons_of_mem _ hx)) a1 hr
+      exact ⟨b1, fun p hp => b2 p (a2 p hp)⟩
+
+theorem checkRowV_mono (fks : List FkDecl) (hco : CascadeOnly fks) (u : Seen) :
+    ∀ (fuel : Nat), MonoSpec fks u (fun t seen db v => checkRowV fks fuel seen db t v) := by
+  intro fuel
+  induction fuel with
+  | zero => intro t seen db v db' seen' _ hr; simp [checkRowV] at hr
+  | succ f ih =>
+    intro t seen db row db' seen' h hr
+    simp only [checkRowV] at hr
+    split at hr
+    · simp only [Except.ok.injEq, Prod.mk.injEq] at hr
+      obtain ⟨rfl, rfl⟩ := hr
+      exact ⟨h, fun _ hp => hp⟩
+    · obtain ⟨a1, a2⟩ := runActsV_mono fks hco u _ ih row _ _ db db' seen'
+        (fun d hd => (List.mem_filter.mp hd).1) h hr
+      exact ⟨a1, fun p hp => a2 p (List.mem_cons_of_mem _ hp)⟩
+
+/-- pairs of the universe not yet in progress: the termination measure -/
+def unseen (u seen : Seen) : Nat := u.countP (fun p => !(seen.contains p))
+
+theorem unseen_mono (u : Seen) {seen seen' : Seen} (h : ∀ p ∈ seen, p ∈ seen') : unseen u seen' ≤ unseen u seen := by
+  unfold unseen
+  apply List.countP_mono_left
+  intro x _ hx
+  simp only [Bool.not_eq_true', List.contains_eq_mem, decide_eq_false_iff_not] at hx ⊢
+  exact fun hs => hx (h x hs)
+
+theorem unseen_cons_lt (u seen : Seen) (p : Nat × Row) (hp : p ∈ u) (hs : seen.contains p = false) :
+    unseen u (p :: seen) < unseen u seen := by
+  unfold unseen
+  induction u with
+  | nil => simp at hp
+  | cons x xs ih =>
+    have hle : xs.countP (fun q => !((p :: seen).contains q)) ≤ xs.countP (fun q => !(seen.contains q)) :=
+      unseen_mono xs (fun q hq => List.mem_cons_of_mem _ hq)
+    rw [List.countP_cons, List.countP_cons]
+    by_cases hx : x = p
+    · subst hx
+      have h1 : (!((x :: seen).contains x)) = false := by simp
+      have h2 : (!(seen.contains x)) = true := by rw [hs]; rfl
+      simp only [h1, h2, if_true]
+      simp only [Bool.false_eq_true, if_false]
+      omega
+    · have hpx : p ∈ xs := by
+        rcases List.mem_cons.mp hp with h | h
+        · exact absurd h.symm hx
+        · exact h
+      have := ih hpx
+      by_cases h1 : seen.contains x = true
+      · have h2 : (p :: seen).contains x = true := by
+          simp only [List.contains_eq_mem, decide_eq_true_eq] at h1 ⊢
+          exact List.mem_cons_of_mem _ h1
+        simp only [h1, h2, Bool.not_true, Bool.false_eq_true, if_false]
+        omega
+      · have h1' : seen.contains x = false := by simpa using h1
+        have h2 : (p :: seen).contains x = false := by
+          simp only [List.contains_eq_mem, decide_eq_false_iff_not, List.mem_cons, not_or] at h1' ⊢
+          exact ⟨hx, h1'⟩
+        simp only [h1', h2, Bool.not_false, if_true]
+        omega
+
+/-- fuel suffices for the call and for everything it calls -/
+def FuelSpec (u : Seen) (fuel : Nat) (rec : Nat → Seen → Db → Row → Except CErr (Db × Seen)) : Prop :=
+  ∀ t seen db v, RowsIn db u → (t, v) ∈ u → unseen u seen < fuel → rec t seen db v ≠ .error .fuel
+
+theorem runVictimsV_fuel (fks : List FkDecl) (u : Seen) (fuel : Nat)
+    (rec : Nat → Seen → Db → Row → Except CErr (Db × Seen)) (hm : MonoSpec fks u rec) (hf : FuelSpec u fuel rec) (t : Nat) :
+    ∀ (vs : List Row) (seen : Seen) (db : Db), RowsIn db u → (∀ v ∈ vs, (t, v) ∈ u) → unseen u seen < fuel →
+      runVictimsV (rec t) vs seen db ≠ .error .fuel := by
+  intro vs
+  induction vs with
+  | nil => intro seen db _ _ _; simp [runVictimsV]
+  | cons v vs ih =>
+    intro seen db h hv hlt
+    unfold runVictimsV
+    split
+    · rename_i e he
+      intro heq; simp only [Except.error.injEq] at heq; subst heq
+      exact hf t seen db v h (hv v List.mem_cons_self) hlt he
+    · rename_i db1 seen1 h1
+      obtain ⟨a1, a2⟩ := hm t seen db v db1 seen1 h h1
+      exact ih seen1 db1 a1 (fun x hx => hv x (List.mem_cons_of_mem _ hx))
+        (Nat.lt_of_le_of_lt (unseen_mono u a2) hlt)
+
+theorem runActsV_fuel (fks : List FkDecl) (hco : CascadeOnly fks) (u : Seen) (fuel : Nat)
+    (rec : Nat → Seen → Db → Row → Except CErr (Db × Seen)) (hm : MonoSpec fks u rec) (hf : FuelSpec u fuel rec)
+    (row : Row) : ∀ (ds : List FkDecl) (seen : Seen) (db : Db), (∀ d ∈ ds, d ∈ fks) → RowsIn db u →
+      unseen u seen < fuel → runActsV rec row ds seen db ≠ .error .fuel := by
+  intro ds
+  induction ds with
+  | nil => intro seen db _ _ _; simp [runActsV]
+  | cons d ds ih =>
+    intro seen db hmem h hlt
+    unfold runActsV
+    split
+    · rename_i e he
+      intro heq; simp only [Except.error.injEq] at heq; subst heq
+      unfold applyActV at he
+      simp only [] at he
+      split at he
+      · simp at he
+      · unfold deleteVictimsV at he
+        split at he
+        · rename_i e' he'
+          simp only [Except.error.injEq] at he; subst he
+          exact runVictimsV_fuel fks u fuel rec hm hf d.child _ seen db h
+            (fun v hv => h _ v (List.mem_filter.mp hv).1) hlt he'
+        · simp at he
+      · simp at he
+    · rename_i db1 seen1 h1
+      obtain ⟨a1, a2⟩ := applyActV_mono fks hco u rec hm row d (hmem d List.mem_cons_self) seen db db1 seen1 h h1
+      exact ih seen1 db1 (fun x hx => hmem x (List.mem_cons_of_mem _ hx)) a1
+        (Nat.lt_of_le_of_lt (unseen_mono u a2) hlt)
+
+theorem checkRowV_fuel (fks : List FkDecl) (hco : CascadeOnly fks) (u : Seen) :
+    ∀ (fuel : Nat), FuelSpec u fuel (fun t seen db v => checkRowV fks fuel seen db t v) := by
+  intro fuel
+  induction fuel with
+  | zero => intro t seen db v _ _ hlt; omega
+  | succ f ih =>
+    intro t seen db row h hin hlt
+    simp only [checkRowV]
+    split
+    · simp
+    · rename_i hns
+      have hns' : seen.contains (t, row) = false := by simpa using hns
+      have hdec := unseen_cons_lt u seen (t, row) hin hns'
+      exact runActsV_fuel fks hco u f _ (checkRowV_mono fks hco u f) ih row _ _ db
+        (fun d hd => (List.mem_filter.mp hd).1) h (by omega)
+
+end VibeProof.Dml
